@@ -51,6 +51,9 @@ def main(argv):
             if meta.get("assessment"):       # assessed as NOT a violation of its property (see meta.json): no VIOLATION is expected
                 print("%-8s %-55s not-a-violation (assessment in meta.json)" % (meta["property"], "seeded_" + os.path.basename(os.path.dirname(d))))
                 continue
+            if meta.get("open_miss"):        # a confirmed violation that the property's own check does not report yet (DESIGN 10.5, round 6)
+                print("%-8s %-55s OPEN MISS (%s)" % (meta["property"], "seeded_" + os.path.basename(os.path.dirname(d)), meta["open_miss"][:90]))
+                continue
             pid = meta["property"]
             link = os.path.join(tempfile.gettempdir(), "%s__seeded_%s.diff" % (pid, os.path.basename(os.path.dirname(d))))
             shutil.copy(d, link)
